@@ -120,6 +120,10 @@ class FakeWriter:
         self.nwrites += 1
         if self.closed or s.script.write_fails(self._conn, self.nwrites):
             s.ev("WriteError", conn=self._conn)
+            # a link on which a write fails is dead: its reading side ends too, at the latest a second later
+            # (scenarios that end it earlier or at a chosen moment do so themselves)
+            if not self.closed:
+                s.loop.call_later(1.0, self._late_eof)
             raise ConnectionResetError("write on a dead link")
         s.ev("Write", conn=self._conn, data=list(data))
         s.wire.setdefault(self._conn, []).append(bytes(data))
@@ -133,6 +137,8 @@ class FakeWriter:
             s.ev("DrainEnd", conn=self._conn)
         if s.script.drain_fails(self._conn, self.nwrites):
             s.ev("WriteError", conn=self._conn)
+            if not self.closed:
+                s.loop.call_later(1.0, self._late_eof)
             raise ConnectionResetError("drain on a dead link")
 
     def close(self):
@@ -144,6 +150,11 @@ class FakeWriter:
 
     def _eof(self):
         if not self._reader.at_eof() and self._reader.exception() is None:
+            self._reader.feed_eof()
+
+    def _late_eof(self):
+        if not self._reader.at_eof() and self._reader.exception() is None:
+            self._sess.ev("Eof", conn=self._conn)
             self._reader.feed_eof()
 
     def is_closing(self):
